@@ -54,7 +54,7 @@ func init() {
 		"Static rules over ReadFile, the header reader, the schema lookup and the decompressors decide the structural clauses of C07:  io.ErrUnexpectedEOF is never taken for a normal end of input (ER-UEOF). "+
 			"magic/schema/codec-table/sync/CRC comparisons dominate every success path (OD-MAGIC, OD-SCHEMA, CT-AGREE, NIL-IFACE, OD-SYNC, OD-CRC), "+
 			"every error on the reading path is checked (ER-CHECK), the callback's error is returned unchanged (ER-PASS), the payload buffer has the declared length and flows unchanged through decompress/decode/deliver (OD-LEN, OD-FLOW), "+
-			"and each block delivers exactly its declared count (OD-LOOP). Not decided: that the comparisons compute the right values for all inputs inside the standard library and snappy (trusted), and value fidelity of the decoded records (C03).",
+			"each block delivers exactly its declared count (OD-LOOP) and reading ends with success only where the input ends at a block boundary (OD-EOF). Not decided: that the comparisons compute the right values for all inputs inside the standard library and snappy (trusted), and value fidelity of the decoded records (C03).",
 		func(c *Ctx) {
 			s := findReadFile(c.P)
 			c.Rule("ANCHORS", "the constructs the rules talk about exist on the current tree", 1)
@@ -73,6 +73,7 @@ func init() {
 			ruleODLenFlow(c, s)
 			ruleERPass(c, s)
 			ruleODLoop(c, s)
+			ruleODEOF(c, s)
 			c.Rule("ER-CHECK", erClauses["ER-CHECK"], 20)
 			for _, fn := range readerFuncs(c.P, s) {
 				erCheck(c, fn, erOpts{allowEOFNil: fn == s.fn || rfEOFDecided(c.P, fn)}, "ER-CHECK", "", "", erClauses)
